@@ -136,6 +136,34 @@ fn check_doc(ctx: &Ctx, cnt: &Counters, what: &str, tree: &Node, v1: AutosarVers
             Err(_) => continue, // a loader panic is C02/C12's business
         };
         let w = |extra: Value| json!({"kind": "compat", "what": what, "source_version": format!("{v1:?}"), "target_version": format!("{v2:?}"), "text_in_source_version": text1, "details": extra});
+        // the target equal to the file's own version, for a file whose content is NOT valid in its own version: the text
+        // relabelled as v2 does not pass strict validation, so it is loaded leniently; check, mask and set_version for
+        // v2 (its own version) must say "incompatible", and for v1 (where the content comes from) "compatible"
+        if reference.is_err() && *v2 != v1 {
+            if let Ok(Ok(lenient)) = load_classified(text2.as_bytes(), false) {
+                cnt.checks.fetch_add(1, Ordering::Relaxed);
+                let wl = |extra: Value| json!({"kind": "compat-own-version", "what": what, "content_from_version": format!("{v1:?}"), "file_labelled_and_loaded_leniently_as": format!("{v2:?}"), "text": text2, "details": extra});
+                match guarded(|| (lenient.file.check_version_compatibility(*v2), lenient.file.set_version(*v2).is_ok(), lenient.file.version())) {
+                    Ok(((errs_own, mask_own), sv_ok, ver_after)) => {
+                        // what the lenient load dropped (with a warning) is not part of the file any more: judge the file as loaded
+                        let as_loaded_ok = guarded(|| lenient.file.serialize()).ok().and_then(|r| r.ok()).is_some_and(|t| matches!(load_classified(t.as_bytes(), true), Ok(Ok(_))));
+                        if errs_own.is_empty() != as_loaded_ok {
+                            ctx.violation(format!("own-version|check-disagrees-with-strict-validation|{}", compat_class(&errs_own)), wl(json!({"strict_load_of_the_file_as_loaded": as_loaded_ok, "reported": compat_kinds(&errs_own)})));
+                        }
+                        if v2.compatible(mask_own) != as_loaded_ok {
+                            ctx.violation("own-version|mask-disagrees-with-strict-validation", wl(json!({"strict_load_of_the_file_as_loaded": as_loaded_ok, "mask": mask_own})));
+                        }
+                        if sv_ok != errs_own.is_empty() {
+                            ctx.violation("own-version|set_version-disagrees-with-check", wl(json!({"set_version_ok": sv_ok, "reported": compat_kinds(&errs_own)})));
+                        }
+                        if ver_after != *v2 {
+                            ctx.violation("own-version|set_version-changed-the-version", wl(json!({"version_after": format!("{ver_after:?}")})));
+                        }
+                    }
+                    Err(p) => ctx.violation(format!("panic|own-version|{}", last_panic_loc()), wl(json!({"msg": p}))),
+                }
+            }
+        }
         let (errs, mask) = match guarded(|| l1.file.check_version_compatibility(*v2)) {
             Ok(x) => x,
             Err(p) => {
